@@ -444,14 +444,29 @@ class CatalogWriter(AbstractContextManager, HandlesDataChunk):
             )
 
         if self.cache_directory.exists():
-            if overwrite:
-                rmtree(self.cache_directory)
-            else:
+            if not overwrite:
                 raise FileExistsError(f"cache directory exists: {cache_directory}")
+            elif not self._is_catalog_cache():
+                raise FileExistsError(
+                    f"not a catalog cache, refusing to overwrite: {cache_directory}"
+                )
+            rmtree(self.cache_directory)
 
         self.buffersize = buffersize
         self.cache_directory.mkdir()
         self.writers: dict[int, PatchWriter] = {}
+
+    def _is_catalog_cache(self) -> bool:
+        """Whether the existing cache directory is a (possibly incomplete)
+        catalog cache, i.e. contains nothing but the patch list and patches."""
+        if not self.cache_directory.is_dir():
+            return False
+        patch_prefix = PATCH_NAME_TEMPLATE.split("{")[0]
+        return all(
+            path.name == PATCH_INFO_FILE
+            or (path.is_dir() and path.name.startswith(patch_prefix))
+            for path in self.cache_directory.iterdir()
+        )
 
     def __repr__(self) -> str:
         items = (
